@@ -66,6 +66,13 @@ func (a *index) Policies(requested sets.Set[model.ConfigKey]) []model.WorkloadAu
 	return res
 }
 
+// peerAuthnSelectsWorkloads reports whether the PeerAuthentication is a workload-level policy. A missing selector and a selector
+// without labels (`selector: {}`) both make it a namespace-level (mesh-level in the root namespace) policy, exactly as for sidecars
+// (model.AuthenticationPolicies, authn.ComposePeerAuthentication) and as in convertedSelectorPeerAuthentications.
+func peerAuthnSelectsWorkloads(pa *securityclient.PeerAuthentication) bool {
+	return len(pa.Spec.GetSelector().GetMatchLabels()) > 0
+}
+
 func getOldestPeerAuthn(policies []*securityclient.PeerAuthentication) *securityclient.PeerAuthentication {
 	var oldest *securityclient.PeerAuthentication
 	for _, pol := range policies {
@@ -242,7 +249,7 @@ func convertPeerAuthentication(rootNamespace string, cfg, nsCfg, rootCfg *securi
 
 	scope := security.Scope_WORKLOAD_SELECTOR
 	// violates case #1, #2, or #3
-	if cfg.Namespace == rootNamespace || pa.Selector == nil || len(pa.PortLevelMtls) == 0 {
+	if cfg.Namespace == rootNamespace || !peerAuthnSelectsWorkloads(cfg) || len(pa.PortLevelMtls) == 0 {
 		log.Debugf("skipping PeerAuthentication %s/%s for ambient since it isn't a workload policy with port level mTLS", cfg.Namespace, cfg.Name)
 		return nil
 	}
